@@ -3,7 +3,10 @@
 import json, os, re, shutil, subprocess, sys, tempfile
 PY = '/venv/bin/python'
 def sh(cmd, cwd, timeout=900):
-    p = subprocess.run(cmd, cwd=cwd, shell=True, capture_output=True, text=True, timeout=timeout)
+    try:
+        p = subprocess.run(cmd, cwd=cwd, shell=True, capture_output=True, text=True, timeout=timeout)
+    except subprocess.TimeoutExpired:
+        return 124, 'TIMEOUT after %ds' % timeout
     return p.returncode, (p.stdout + p.stderr)
 for pid in sys.argv[1:]:
     out = f'{os.environ.get("SEED_OUT", "/tmp/seed-out3")}/{pid}'
